@@ -8,6 +8,7 @@ CONSTANTS
   DirectMap = 1073741824
   EnvK = 2
   EnvC = 4194304
+  HoleCap = 64
   Ids = {}
   Sizes = {}
   Aligns = {}
